@@ -277,20 +277,17 @@ theorem specTable_ranked {g : Segment} {A : Option Assets} {rank : Uid → Nat} 
 
 /-! ### instruction semantics on the shapes the compiler produces -/
 
-theorem truthy_self (v : Val) : (if v.truthy = true then v else Val.none) = v := by
-  cases v <;> simp [Val.truthy]
-
 theorem exec_train_preset (A : Option Assets) (a : Actor) (L X Y : Val) :
-    exec A (.functor a .train [.setState]) [L, X, Y] = .state a L X Y := by
-  simp [exec, execFunctor, reducePresets, truthy_self]
+    exec A (.functor a .train [.setState]) [L, X, Y] = .state a L.asState X Y := by
+  simp [exec, execFunctor, reducePresets, Val.asState]
 
 theorem exec_train (A : Option Assets) (a : Actor) (X Y : Val) :
     exec A (.functor a .train []) [X, Y] = .state a .none X Y := by
   simp [exec, execFunctor, reducePresets]
 
 theorem exec_apply_preset (A : Option Assets) (a : Actor) (L : Val) (xs : List Val) :
-    exec A (.functor a .apply [.setState]) (L :: xs) = .apply a L xs := by
-  simp [exec, execFunctor, reducePresets, truthy_self]
+    exec A (.functor a .apply [.setState]) (L :: xs) = .apply a L.asState xs := by
+  simp [exec, execFunctor, reducePresets, Val.asState]
 
 theorem exec_apply (A : Option Assets) (a : Actor) (xs : List Val) :
     exec A (.functor a .apply []) xs = .apply a .none xs := by
